@@ -378,4 +378,61 @@ def wfFlatB : List PStmt → Bool
   | [] => true
   | s :: ss => wfFlat s && wfFlatB ss
 
+/-! ## Well-formed statements of every kind (domain of `C12.stmt_roundtrip` / `C12.program_roundtrip`) -/
+
+/-- the words that end a clause: no statement starts with one of them -/
+def enderKws : List Bytes := [bytesOf "end", bytesOf "elsif", bytesOf "else", bytesOf "exception", bytesOf "when"]
+
+/-- a function parameter as the parser stores it: upper-cased name; no type, or a type keyword other than `undefined`
+(which the parser turns into "no type") -/
+def paramOk (p : Bytes × Bytes) : Bool :=
+  upper p.1 == p.1 && (p.2.isEmpty || (typeKws.contains p.2 && p.2 != bytesOf "undefined"))
+
+def wfOpt : Option PExpr → Bool
+  | none => true
+  | some e => wf e
+
+mutual
+  /-- `nested` = the statement stands inside a block (function declarations are rejected there) -/
+  def wfS (nested : Bool) : PStmt → Bool
+    | .nop | .brk | .cont => true
+    | .trace e => wf e
+    | .ret none => true
+    | .ret (some e) => wf e
+    | .letS n e nx => nameOk n && wf e && wfNext nested nx
+    | .letn n ty nx => nameOk n && typeKws.contains ty && wfNext nested nx
+    | .print args => wfArgs args && itemsSep args
+    | .put args => wfArgs args && itemsSep args
+    | .doS e => wf e
+    | .raise n => nameOk n
+    | .ifS rules els => !rules.isEmpty && wfRules rules && wfElse els
+    | .whileS c body => wf c && !body.isEmpty && wfB body
+    | .forS v b e step _ body => nameOk v && wf b && wf e && wfOpt step && !body.isEmpty && wfB body
+    | .forall v e _ body => nameOk v && wf e && !body.isEmpty && wfB body
+    | .begin body catches => wfB body && wfCatches catches
+    | .func n params rt body catches =>
+      !nested && nameOk n && params.all paramOk && typeKws.contains rt && wfB body && wfCatches catches
+  def wfNext (nested : Bool) : Option PStmt → Bool
+    | none => true
+    | some s => wfS nested s
+  def wfElse : Option (List PStmt) → Bool
+    | none => true
+    | some b => !b.isEmpty && wfB b
+  def wfRules : List (PExpr × List PStmt) → Bool
+    | [] => true
+    | (c, b) :: rs => wf c && !b.isEmpty && wfB b && wfRules rs
+  def wfCatches : List (Bytes × List PStmt) → Bool
+    | [] => true
+    | (n, b) :: cs => nameOk n && !b.isEmpty && wfB b && wfCatches cs
+  /-- a block: every statement well formed as a nested statement -/
+  def wfB : List PStmt → Bool
+    | [] => true
+    | s :: ss => wfS true s && wfB ss
+end
+
+/-- a program: every statement well formed as a top-level statement -/
+def wfP : List PStmt → Bool
+  | [] => true
+  | s :: ss => wfS false s && wfP ss
+
 end BlocV.Roundtrip
